@@ -321,4 +321,78 @@ theorem splitPath_none (st : St) (bid r : Nat)
           rw [hl] at hne
           simp at hne
 
+/-! ### computeDfdv, argMinFirst -/
+
+theorem computeDfdv_post (st : St) (bid : Nat) :
+    ∀ (fuel : Nat) (lm : Array Rat) (post : Array Nat) (v : Nat) (u : Option Nat),
+      (∀ ci ∈ post, (st.cons[ci]!).active = true) →
+      ∀ ci ∈ (computeDfdv st bid fuel lm post v u).2.1, (st.cons[ci]!).active = true := by
+  intro fuel
+  induction fuel with
+  | zero => intro lm post v u h; simpa [computeDfdv] using h
+  | succ fuel ih =>
+    intro lm post v u h
+    unfold computeDfdv
+    simp only
+    apply Array.foldl_induction
+      (motive := fun _ (acc : Array Rat × Array Nat × Rat × Bool) => ∀ ci ∈ acc.2.1, (st.cons[ci]!).active = true)
+    · apply Array.foldl_induction
+        (motive := fun _ (acc : Array Rat × Array Nat × Rat × Bool) => ∀ ci ∈ acc.2.1, (st.cons[ci]!).active = true)
+      · exact h
+      · intro i acc hm
+        split
+        · rename_i hcf
+          intro ci hci
+          rcases Array.mem_push.1 hci with hci | rfl
+          · exact ih _ _ _ _ hm ci hci
+          · simp only [canFollowRight, Bool.and_eq_true] at hcf
+            exact hcf.1.2
+        · exact hm
+    · intro i acc hm
+      split
+      · rename_i hcf
+        intro ci hci
+        rcases Array.mem_push.1 hci with hci | rfl
+        · exact ih _ _ _ _ hm ci hci
+        · simp only [canFollowLeft, Bool.and_eq_true] at hcf
+          exact hcf.1.2
+      · exact hm
+
+theorem argMinFirst_mem (xs : Array (Nat × Rat)) (i : Nat) (x g : Rat)
+    (h : argMinFirst xs = some (i, x, g)) : ∃ p ∈ xs, p.1 = i := by
+  unfold argMinFirst at h
+  simp only at h
+  split at h
+  · simp at h
+  · rename_i k i' x' hfold
+    simp only [Option.some.injEq, Prod.mk.injEq] at h
+    obtain ⟨rfl, _, _⟩ := h
+    have key := Array.foldl_induction
+      (as := xs.mapIdx fun k (p : Nat × Rat) => (k, p.1, p.2))
+      (motive := fun _ (best : Option (Nat × Nat × Rat)) => ∀ q, best = some q → ∃ p ∈ xs, p.1 = q.2.1)
+      (init := none)
+      (f := fun best p => match best with
+        | none => some p
+        | some (_, _, bx) => if p.2.2 < bx then some p else best)
+      (by intro q hq; simp at hq)
+      (by
+        intro j best hm q hq
+        have hp : ∃ p ∈ xs, p.1 = ((xs.mapIdx fun k (p : Nat × Rat) => (k, p.1, p.2))[j]).2.1 := by
+          refine ⟨xs[j.1]'(by have := j.2; simpa using this), Array.getElem_mem _, ?_⟩
+          simp
+        cases best with
+        | none =>
+          simp only [Option.some.injEq] at hq
+          subst hq
+          exact hp
+        | some b =>
+          obtain ⟨b1, b2, b3⟩ := b
+          simp only at hq
+          split at hq
+          · simp only [Option.some.injEq] at hq
+            subst hq
+            exact hp
+          · exact hm q hq)
+    exact key _ hfold
+
 end AdaptaVerif.Lemmas.VpscTraverse
